@@ -17,5 +17,6 @@ for m in missing: print('  MISSING', m)
 sys.exit(1 if missing else 0)
 PY
 RC=$?
+rm -f /repo/rm_info.json   # left behind by a test of the suite
 rm -rf "$OUT"
 exit $RC
